@@ -5,10 +5,14 @@
 set -u
 PATCH="$(cd "$(dirname "$1")" && pwd)/$(basename "$1")"; shift
 PROPS="${*:-C01 C02 C03 C07 C08 C09 C10 C11 C12 C13 C15 C16 C17 C18 C19}"
-cd /verif
+# work from a frozen copy of /verif: edits made meanwhile cannot break the run, and the evidence
+# written by runs against a changed tree does not overwrite /verif/evidence
+SNAP=$(mktemp -d /dev/shm/verifsnap-XXXXXX)
+rsync -a --exclude .git --exclude bin --exclude evidence --exclude replays --exclude seeded /verif/ "$SNAP/"
+cd "$SNAP"
 WT=$(mktemp -d /dev/shm/allwt-XXXXXX); rmdir "$WT"
 git -C /repo worktree add -q "$WT" HEAD || exit 2
-trap 'git -C /repo worktree remove --force "$WT" >/dev/null 2>&1; git -C /repo worktree prune' EXIT
+trap 'git -C /repo worktree remove --force "$WT" >/dev/null 2>&1; git -C /repo worktree prune; rm -rf "$SNAP"' EXIT
 git -C "$WT" apply "$PATCH" || { echo "allchecks: patch does not apply"; exit 2; }
 for P in $PROPS; do
   out=$(VERIF_REPO="$WT" ./check.sh "$P" quick 2>&1); rc=$?
